@@ -308,7 +308,7 @@ def _resolve_single(ff, e, at):
     return e, at
 
 
-def _embed(chk):
+def _embed(chk, keep_rule="SPECIAL.embed.keep", window_rule=None, base_rule="SPECIAL.embed"):
     pm = chk.pm
     fn = pm.own_method("ExtendedEOF", "_fit_algorithm")
     ff = FuncFacts.of(fn)
@@ -344,6 +344,36 @@ def _embed(chk):
             elif isinstance(st, ast.Constant) and st.value == 0:
                 bad = True
                 why = "slice stop is the constant 0"
-            chk.check(not bad, "SPECIAL.embed", fn, call, why=why, facts={"stop": norm(stop)})
+            if base_rule:
+                chk.check(not bad, base_rule, fn, call, why=why, facts={"stop": norm(stop)})
+            # the number of samples kept, as a polynomial in the sample count N, the embedding e and the delay t:
+            # with a single embedding nothing is cut whatever the delay (ExtendedEOF(embedding=1) == EOF), and in
+            # general exactly the (e - 1) * t trailing samples without a complete delay window are cut
+            from .common import poly_eval, poly_str, poly_subst
+
+            def sym(x):
+                t = norm(x)
+                ps = ff.paths(x, spine_only=True) if isinstance(x, (ast.Subscript, ast.Attribute, ast.Call)) else []
+                if isinstance(x, ast.Subscript) and is_self_attr(x.value, "_params") and const_str(x.slice) in ("embedding", "tau"):
+                    return {"embedding": "e", "tau": "t"}[const_str(x.slice)]
+                if is_self_attr(x) and x.attr in ("embedding", "tau"):
+                    return {"embedding": "e", "tau": "t"}[x.attr]
+                if (t.endswith(".size") or t.startswith("len(") or ".sizes[" in t or ".shape[" in t) and any(p.atom.kind == "param" or p.atom.name.startswith("self.pca") for p in ps):
+                    return "N"
+                return None
+
+            if not (isinstance(st, ast.UnaryOp) and isinstance(st.op, ast.USub)):
+                P = poly_eval(ff, st, at3, sym)
+                if P is not None and ("N",) in P:
+                    one = poly_subst(P, "e", 1)
+                    if keep_rule:
+                      chk.check(one == {("N",): 1}, keep_rule, fn, call, construct="samples kept with a single embedding == all samples",
+                              why=f"with embedding = 1 the sample cut keeps {poly_str(one)} samples (N = sample count, t = tau) instead of N: "
+                                  "ExtendedEOF with a single embedding no longer equals EOF for every delay")
+                    want = {("N",): 1, ("e", "t"): -1, ("t",): 1}
+                    if window_rule:
+                      chk.check(P == want, window_rule, fn, call, construct="samples kept == N - (embedding - 1) * tau",
+                              why=f"the sample cut keeps {poly_str(P)} samples instead of N - (e - 1)*t: rows without a complete delay window are kept "
+                                  "(shifted-in NaN) or complete windows are dropped")
     if not found:
         raise AnalysisError("ExtendedEOF._fit_algorithm: sample cut (isel with a slice stop) not found (anchor vanished)")
